@@ -22,6 +22,11 @@ MsgsSt(fps) ==
         mi \in {"absent", "valid", "invalid"}, sha \in {"absent", "valid", "invalid"},
         fp \in fps} \cup {Garbage, MkMsg("tx", TRUE, "request", "valid", "absent", "valid")}
 
+\* application attribute lists: none; duplicates with another type in between plus a
+\* pre-populated USERNAME; pre-populated integrity and fingerprint
+AppsSmall == {<<>>}
+AppsRich == {<<>>, <<32802, 6, 36, 32802>>, <<8, 32808, 28>>}
+
 MsgsA == MsgsNoMech({"absent"})
 MsgsB == MsgsNoMech({"valid", "invalid", "absent"})
 MsgsC == MsgsSt({"absent"})
